@@ -129,3 +129,74 @@ Proof.
   split; [exact A|]. split; [exact E|]. vm_compute. repeat split.
 Qed.
 Print Assumptions c06_pipeline_nonvacuous.
+
+(** ---- the last hypothesis: [log_fresh] from the linearity of the bridge (BridgeNoDup.pipeline_idents_nodup, builder
+    "bridge": the identifier ranges of each file's CoreAst are pairwise distinct) and proofs/IndexerFresh.v *)
+From TG.Proofs Require BridgeNoDup IndexerFresh.
+
+Lemma pipeline_keys_nodup : forall pfuel cfuel files root a w,
+  analyze pfuel cfuel files root = Some a -> an_core a = Ok w ->
+  forall g body, nthN (ws_files w) g = Some body -> NoDup (IndexerFresh.keys g (flat_map stmt_parts body)).
+Proof.
+  intros pfuel cfuel files root a w A E g body Hn. unfold nthN in Hn.
+  pose proof (BridgeNoDup.pipeline_idents_nodup _ _ _ _ _ _ A E _ _ Hn) as Hnd.
+  destruct (analyze_wf _ _ _ _ _ _ A E) as [HL HW].
+  assert (Ht : exists txt, nth_error (map (fun fp => pf_text (snd fp)) (an_files a)) (N.to_nat g) = Some txt).
+  { destruct (nth_error (map (fun fp => pf_text (snd fp)) (an_files a)) (N.to_nat g)) as [txt|] eqn:Et; [exists txt; reflexivity|].
+    apply nth_error_None in Et. assert (Hlt : (N.to_nat g < List.length (ws_files w))%nat) by (apply nth_error_Some; congruence). lia. }
+  destruct Ht as [txt Ht]. destruct (HW _ _ _ Hn Ht) as (_ & HF & _).
+  rewrite IndexerFresh.keys_file_idents.
+  replace (map (fun i => IndexerFresh.tagr g (i_rng i)) (file_idents body)) with (map i_rng (file_idents body)); [exact Hnd|].
+  apply map_ext_in. intros i Hi. rewrite Forall_forall in HF. destruct (HF i Hi) as [Hfile _].
+  unfold IndexerFresh.tagr. rewrite Nnat.N2Nat.id in Hfile. rewrite <- Hfile. destruct (i_rng i); reflexivity.
+Qed.
+
+Theorem pipeline_log_fresh : forall pfuel cfuel files root a w,
+  analyze pfuel cfuel files root = Some a -> an_core a = Ok w -> log_fresh (index_ws w) = true.
+Proof.
+  intros pfuel cfuel files root a w A E. apply IndexerFresh.index_ws_log_fresh. eapply pipeline_keys_nodup; eassumption.
+Qed.
+
+(** C06 for the model pipeline, NO hypothesis left *)
+Theorem c06_pipeline : forall pfuel cfuel files root a w,
+  analyze pfuel cfuel files root = Some a -> an_core a = Ok w ->
+  let toks := ws_id_toks (an_trees a) in
+  let s := index_ws w in
+  forall f p t, SymbolMap.goto_definition (abs s) f p = SymbolMap.SOk (Some t) ->
+  exists c n rs,
+    SymbolWf.tok_name toks c = Some n /\ (SymbolMap.fr_file c = f /\ SymbolMap.fr_lo c <= p /\ p < SymbolMap.fr_hi c) /\
+    (forall c' n', In (c', n') toks -> (SymbolMap.fr_file c' = f /\ SymbolMap.fr_lo c' <= p /\ p < SymbolMap.fr_hi c') -> c' = c) /\
+    SymbolWf.tok_name toks t = Some n /\
+    SymbolMap.references (abs s) f p = SymbolMap.SOk (Some rs) /\
+    (forall r, In r rs -> SymbolWf.tok_name toks r = Some n /\
+       forall q, SymbolMap.fr_lo r <= q -> q < SymbolMap.fr_hi r ->
+         SymbolMap.goto_definition (abs s) (SymbolMap.fr_file r) q = SymbolMap.SOk (Some t)) /\
+    (t = c \/ In c rs).
+Proof.
+  intros pfuel cfuel files root a w A E toks s. apply (c06_pipeline_core pfuel cfuel files root a w A E).
+  eapply pipeline_log_fresh; eassumption.
+Qed.
+Print Assumptions c06_pipeline.
+
+(** C06 for the Core fragment with hypotheses on the AST only *)
+Theorem c06_coherent_core_ast : forall toks (w : workspace),
+  SymbolWf.toks_sorted toks = true ->
+  (forall g body, nthN (ws_files w) g = Some body -> Forall (IndexerCoh.stmt_ok toks g) body) ->
+  (forall g body, nthN (ws_files w) g = Some body ->
+     NoDup (map (fun i => mkR g (r_lo (i_rng i)) (r_hi (i_rng i))) (file_idents body))) ->
+  let s := index_ws w in
+  forall f p t, SymbolMap.goto_definition (abs s) f p = SymbolMap.SOk (Some t) ->
+  exists c n rs,
+    SymbolWf.tok_name toks c = Some n /\ (SymbolMap.fr_file c = f /\ SymbolMap.fr_lo c <= p /\ p < SymbolMap.fr_hi c) /\
+    (forall c' n', In (c', n') toks -> (SymbolMap.fr_file c' = f /\ SymbolMap.fr_lo c' <= p /\ p < SymbolMap.fr_hi c') -> c' = c) /\
+    SymbolWf.tok_name toks t = Some n /\
+    SymbolMap.references (abs s) f p = SymbolMap.SOk (Some rs) /\
+    (forall r, In r rs -> SymbolWf.tok_name toks r = Some n /\
+       forall q, SymbolMap.fr_lo r <= q -> q < SymbolMap.fr_hi r ->
+         SymbolMap.goto_definition (abs s) (SymbolMap.fr_file r) q = SymbolMap.SOk (Some t)) /\
+    (t = c \/ In c rs).
+Proof.
+  intros toks w Ht Hok Hnd s. apply (IndexerCoh.c06_coherent_core toks w Ht Hok).
+  apply IndexerFresh.index_ws_log_fresh_idents. exact Hnd.
+Qed.
+Print Assumptions c06_coherent_core_ast.
